@@ -19,11 +19,13 @@ func init() {
 }
 
 func runC17(c *core.Ctx) {
-	runFixtures(c, "nilguard", "pool")
+	runFixtures(c, "nilguard", "pool", "lockleak")
 	c.Explain("Structural clauses of C17 decided from source: (R17.1) for every pointer field of a struct that some method assigns nil (the closed mark of keyvalue.file), every dereference of that field in every other method — including promoted fields/methods of the embedded pointer — is dominated by a non-nil test of the field, directly or at every call site of an unexported helper; (R17.2) every type implementing io/fs.File has a closed state: Close writes a receiver field or delegates to an inner handle's Close, and every other exported method tests that field before its first effect or delegates to the inner handle; (R17.3) the failing side of each closed-guard returns an ErrClosed-class error; (R17.4) every store write-back reachable from a File method happens in a transaction that first looks the path up and skips the write when it no longer exists; (R17.5) path-sensitive form of R17.2: in every exported method of every File type, each return with a nil error lies on a path that loaded the closed mark / inner handle or called another method of the same receiver — a fast path that answers before the check (an empty buffer, a cached value) succeeds on a closed handle; (R17.6) no value of a type implementing io/fs.File is put into a sync.Pool (a recycled struct makes a closed handle work again and lets it move another handle's position); (R17.7) no method of the OS-backed File type calls a path-taking function of package os (os.Chmod, os.Stat…): after Close the handle's methods fail with ErrClosed, while a by-name fallback would succeed and act on whatever file has that name now. (R17.8) every error a method of the OS-backed handle returns is the translated error of the inner *os.File call (a closed handle answers ErrClosed whatever the arguments). (R17.9) Close marks the handle only after testing its closed mark. NOT claimed: independence of offsets between handles over histories (the offset is a per-handle struct field, inventoried only), equality of the error with os.File's for each call.")
 	c.Assume("A6: partial correctness", "closers are not invoked from within other methods of the same handle (checked: no static call to a closer from a sibling method)")
 	c.RuleDoc("R17.1", "nullable pointer field: every dereference guarded by a dominating non-nil test")
 	c.RuleDoc("R17.5", "every success return of a handle method lies on a path that consulted the closed mark or delegated")
+	c.RuleDoc("R17.10", "no method of a file handle returns with a mutex held")
+	c.RuleDoc("R17.11", "a File helper hands its file's error on instead of answering with its own")
 	c.RuleDoc("R17.9", "a second Close fails")
 	c.RuleDoc("R17.8", "every error of the OS-backed handle is the inner *os.File's (a closed handle answers ErrClosed whatever the arguments)")
 	c.RuleDoc("R17.7", "methods of the OS-backed file act through the held *os.File only")
@@ -38,6 +40,19 @@ func runC17(c *core.Ctx) {
 		r17NoPool(c, p, p.SrcFuncs())
 		r17HandleOnly(c, p)
 		r17WrapperAnswersLast(c, p)
+		r17HelpersKeepTheHandleError(c, p)
+		if fileI := stdIface(p, "io/fs", "File"); fileI != nil {
+			var hm []*ssa.Function
+			for _, n := range implementers(p, fileI) {
+				if strings.HasPrefix(typeKey(n), "fstest.") {
+					continue
+				}
+				hm = append(hm, methodList(p, n)...)
+			}
+			if r17NoLockLeakInHandles(c, p, hm, "R17.10") == 0 {
+				c.OK("R17.10", "no-handle-method-locks", "", "no method of a file-handle type takes a mutex of its receiver")
+			}
+		}
 		if p.Target == load.Linux {
 			r17WriteBack(c, p)
 		}
@@ -48,6 +63,7 @@ func runC17(c *core.Ctx) {
 	c.Floor("R17.7", 10)
 	c.Floor("R17.8", 10)
 	c.Floor("R17.9", 2)
+	c.Floor("R17.11", 8)
 	c.Floor("R17.3", 8)
 	c.Floor("R17.4", 1)
 }
@@ -884,4 +900,89 @@ func r17WrapperAnswersLast(c *core.Ctx, p *load.Program) {
 	if cnt < 10 {
 		c.Hard("anchor: methods of os.file returning an error (found %d)", cnt)
 	}
+}
+
+// r17HelpersKeepTheHandleError (R17.11): a package-level helper that takes a File and calls one of its methods hands
+// that method's error on — returned, or wrapped — on every path on which it is non-nil; it does not answer with an
+// error of its own instead. Handles without the optional method report ErrClosed only through the probing call
+// (SyncFile's fallback Stat): replacing its error by ErrNotImplemented makes a closed handle look merely incapable.
+func r17HelpersKeepTheHandleError(c *core.Ctx, p *load.Program) {
+	n := 0
+	for _, fn := range helperFuncs(p) {
+		if len(fn.Params) == 0 || !hasMethods(fn.Params[0].Type(), "Read", "Stat", "Close") {
+			continue
+		}
+		bad, good := dropCheck(p, fn, dropOpts{noOverride: true, only: func(ci ssa.CallInstruction) bool {
+			return ci.Common().IsInvoke() && ci.Common().Value == ssa.Value(fn.Params[0])
+		}})
+		for _, g := range good {
+			n++
+			c.OK("R17.11", g.Key, g.Pos, g.Msg)
+		}
+		for _, b := range bad {
+			n++
+			if b.Kind == "undecided" {
+				c.Unknown("R17.11", b.Key, b.Pos, b.Msg)
+			} else {
+				c.Bad("R17.11", b.Key, b.Pos, b.Msg+" — the helper answers with an error of its own: on a closed handle the caller is told ErrNotImplemented (or nothing) instead of ErrClosed")
+			}
+		}
+	}
+	if n == 0 {
+		c.Hard("anchor: File helpers calling a method of their file")
+	}
+}
+
+// r17NoLockLeakInHandles (R17.10): no method of a file-handle type returns with a mutex of its receiver held (explicit
+// Unlock on that path or a dominating deferred Unlock): a closed-handle early return that forgets the Unlock makes the
+// NEXT call on the closed handle block for ever instead of failing with ErrClosed.
+func r17NoLockLeakInHandles(c *core.Ctx, p *load.Program, fns []*ssa.Function, rule string) int {
+	n := 0
+	for _, fn := range fns {
+		if fn == nil || fn.Blocks == nil {
+			continue
+		}
+		locks := false
+		type dfr struct {
+			ins  ssa.Instruction
+			path string
+		}
+		var defers []dfr
+		ssax.Instrs(fn, func(ins ssa.Instruction) {
+			ci, ok := ins.(ssa.CallInstruction)
+			if !ok {
+				return
+			}
+			op, path := ssax.MutexOp(ci)
+			_, isDefer := ins.(*ssa.Defer)
+			if (op == ssax.OpLock || op == ssax.OpRLock) && !isDefer {
+				locks = true
+			}
+			if isDefer && (op == ssax.OpUnlock || op == ssax.OpRUnlock) {
+				defers = append(defers, dfr{ins, path})
+			}
+		})
+		if !locks {
+			continue
+		}
+		n++
+		ls := ssax.Locksets(fn, false, nil)
+		bad := ""
+		for _, r := range ssax.Returns(fn) {
+			for k := range ls[r] {
+				released := false
+				for _, d := range defers {
+					if d.path == k && ssax.Dominates(d.ins, r) {
+						released = true
+					}
+				}
+				if !released {
+					bad = p.Pos(r.Pos())
+				}
+			}
+		}
+		c.Check(bad == "", rule, fname(fn)+"|mutex-released-on-every-return", p.Pos(fn.Pos()), "no return is reached with a mutex held",
+			fmt.Sprintf("%s can return at %s with a mutex of its receiver still locked: the call itself answers correctly, the next call on the same handle blocks for ever", fname(fn), bad))
+	}
+	return n
 }
